@@ -28,6 +28,10 @@ def load_variants():
 
 def _apply(root, variant):
     """Apply the edits of a variant to the scratch tree; returns None or a reason why it is not applicable."""
+    if variant.get('transform'):
+        from . import transforms
+        getattr(transforms, variant['transform'])(root)
+        return None
     for rel, old, new in variant['edits']:
         path = os.path.join(root, rel)
         if not os.path.exists(path):
@@ -69,6 +73,16 @@ def _run_variant(args):
         known = {(k['rule'], k['file'], k['function'], k['construct']) for k in load_known()
                  if k.get('status') == 'known' and prop in k.get('properties', [])}
         new = [o for o in failed if o.key not in known]
+        if not new and variant.get('reference_counts') is not None:
+            # a whole-tree behaviour-preserving transform must not make any rule lose (or gain) instances
+            mine = {}
+            for o in rep.obs:
+                mine[o.rule] = mine.get(o.rule, 0) + 1
+            if mine != variant['reference_counts']:
+                diff = sorted((r, variant['reference_counts'].get(r), mine.get(r))
+                              for r in set(mine) | set(variant['reference_counts'])
+                              if mine.get(r) != variant['reference_counts'].get(r))
+                return (variant['id'], 'analysis-error', 'rule instance counts changed under the transform: %s' % diff[:6], [])
         if not new:
             for rule, n, what in rep.minimums:
                 if rep.count(rule) < n:
@@ -79,9 +93,20 @@ def _run_variant(args):
         shutil.rmtree(tmp, ignore_errors=True)
 
 
-def run_selftest(prop, root, jobs=None):
+WHOLE_TREE = [
+    {'id': 'whole-tree-reformat', 'kind': 'silent', 'transform': 'reformat_tree',
+     'what': 'every module re-printed by ast.unparse (layout, quoting, parentheses, comments change; behaviour does not)'},
+    {'id': 'whole-tree-alpha-rename', 'kind': 'silent', 'transform': 'alpha_rename_tree',
+     'what': 'every non-parameter local variable and nested function of every function renamed (suffix added)'},
+    {'id': 'whole-tree-opaque-rename', 'kind': 'silent', 'transform': 'opaque_rename_tree',
+     'what': 'every non-parameter local variable and nested function renamed to a meaningless name (zq0, zq1 ...)'},
+]
+
+
+def run_selftest(prop, root, jobs=None, reference_counts=None):
     """-> dict summary; raises AnalysisError when the checker is shown to be broken."""
     variants = [v for v in load_variants() if prop in v['props']]
+    variants += [dict(v, props=[prop], reference_counts=reference_counts) for v in WHOLE_TREE]
     if not variants:
         return {'variants': 0, 'note': 'no variants registered for %s' % prop}
     jobs = jobs or min(16, os.cpu_count() or 4, len(variants))
